@@ -112,3 +112,26 @@ CHECKS["C15"] = {
          "CloudSync application calls and the SmartCloudSync API, over all histories/schedules/call sequences in the bound, must happen while the calling thread owns state.lock (lockset "
          "argument: lock ownership at a mutation is a property of one thread's path). The claim that real threaded executions reach C01-C04 is outside this technique and not claimed.",
  "technique": "bounded exhaustive exploration of each thread entry point's paths (z3-enumerated histories, schedules, API call sequences) with a lock-ownership monitor on every state mutation hook"}
+
+# additions made after the seeded-change rounds (appended to the notes above)
+_ADD = {
+ "C01": " Fixed multi-step two-sided stories (with solver-chosen 'run until quiet' gaps) on three id pairings, and a family in which the last operation lands inside an engine step (before its k-th provider call), extend the histories.",
+ "C02": " A transient corrupt-read fault placed at the first download of a fresh version, and a file leaving the root while the peer edits it, are further families.",
+ "C03": " Fixed one-sided stories under fine and guided 'late echo' schedules (a change mirrored before the peer's echo events are read) on three id pairings.",
+ "C04": " Focused families and one-sided stories (rename chains, name re-use, rename back, folder emptied and removed) with the other side creating an unrelated file.",
+ "C05": " Schedule independence is a differential oracle against the canonical fair schedule; two successive conflicts on one file; provider pairs with different hash functions.",
+ "C06": " Cold start with a stop inside the start-up walk, the first session of an empty pair, and three engine generations over one storage are further families.",
+ "C07": " Cold start with the crash at any write of the first run, and one more user operation after the recovery, are further families.",
+ "C08": " Intake batches cut short by a temporary error after k events are included.",
+ "C09": " The on-disk backend is also run concretely with an injected reconnect and close/reopen, and with two callers interleaved at the storage mutex's release points (linearizability oracle).",
+ "C10": " Cold start with one fault during the start-up walk, two faults close together, and a peer edit between the fault and the retry are further families.",
+ "C12": " Account pairs that differ in case sensitivity (with a case-variant sibling of the root) and an in-root delete followed by a byte-identical file outside the root are further families.",
+ "C14": " Name-reuse stories with intermediate quiet points and a 40-call delay of a batch's first event are included.",
+ "C15": " The state lock must also be owned at every provider call made inside one entry synchronisation (atomicity of the step).",
+ "C17": " A negative rating must survive the completion of a related entry.",
+ "C18": " stop() calls placed between start() returning and the service thread entering run() are explored sequentially.",
+ "C19": " Renames onto the same path or an ancestor and deletes of the root are included.",
+ "C20": " Focused families cover un-request by id, nested remote files, un-request of a predicate match followed by a remote edit, un-request while the upload fails, and ghost entries in the merged listing.",
+}
+for _k, _v in _ADD.items():
+    CHECKS[_k]["text"] = CHECKS[_k]["text"] + _v
